@@ -18,7 +18,8 @@ import vcheck
 
 
 def run(ctx):
-    ctx.rule = ("gated: 3 Alerts/alertsHandler schedules (append in the sizing gap with 0 and 3 prior alerts, reset in "
+    ctx.rule = ("lifecycle: a peer whose consensus never becomes ready must finish shutting down (ReadyTimeout 300 ms, Done() "
+                "and a later Shutdown() within 10 s); gated: 3 Alerts/alertsHandler schedules (append in the sizing gap with 0 and 3 prior alerts, reset in "
                 "the gap at maxAlerts+1) and 2 informer schedules (shutdown between nil test and use), from TLC "
                 "counterexamples of the as-coded model; free-running under -race: tracker (6 callers x 150 random "
                 "Track/Untrack/Status/StatusAll/Recover/RecoverAll, with and without concurrent Shutdown), monitor "
@@ -30,7 +31,8 @@ def run(ctx):
     # SPEC
     ctx.tlc("Concurrency.tla", "Concurrency_alerts.cfg", workers=4, timeout=600)
     ctx.tlc("Concurrency.tla", "Concurrency_informer.cfg", workers=2, timeout=600)
-    for cfg in ("Concurrency_alerts_ascoded.cfg", "Concurrency_informer_ascoded.cfg"):
+    ctx.tlc("Concurrency.tla", "Concurrency_lifecycle.cfg", workers=2, timeout=600)
+    for cfg in ("Concurrency_alerts_ascoded.cfg", "Concurrency_informer_ascoded.cfg", "Concurrency_lifecycle_ascoded.cfg"):
         r = ctx.tlc("Concurrency.tla", cfg, workers=1, timeout=600, expect_violation=True, count=False)
         if not r.violation:
             raise vcheck.Infra("the as-coded model %s is expected to be refuted (attack schedules come from it)" % cfg)
